@@ -1,3 +1,5 @@
 SPECIFICATION Spec
+CONSTANTS
+  KnownFindings = TRUE
 INVARIANTS TableOK
 CHECK_DEADLOCK FALSE
